@@ -11,6 +11,12 @@ namespace Scalibr.Overlay
 /-- every regular-file node is below the limit -/
 def SizeOK (limit : Nat) (t : Tree) : Prop := ∀ q n, t.get q = some n → n.kind = .file → n.size < limit
 
+theorem linkEntry_kind (vp segs : Path) (w : Bool) (mode : Nat) (link : String) :
+    (linkEntry vp segs w mode link).e.kind = .link := by
+  unfold linkEntry; split
+  · rfl
+  · split <;> rfl
+
 theorem classify_accept_size (limit : Nat) (r : RawEntry) (vp segs : Path) (w : Bool)
     (ha : (classify limit r vp segs w).act = .accept) (hk : (classify limit r vp segs w).e.kind = .file) :
     (classify limit r vp segs w).e.size < limit := by
@@ -23,12 +29,8 @@ theorem classify_accept_size (limit : Nat) (r : RawEntry) (vp segs : Path) (w : 
     by_cases hs : r.size ≥ limit
     · simp [hs] at ha
     · omega
-  · split at hc
-    · subst hc; simp at hk
-    · split at hc <;> subst hc <;> simp at hk
-  · split at hc
-    · subst hc; simp at hk
-    · split at hc <;> subst hc <;> simp at hk
+  · subst hc; rw [linkEntry_kind] at hk; cases hk
+  · subst hc; rw [linkEntry_kind] at hk; cases hk
   · subst hc; simp at hk
 
 theorem normEntry_accept_size (limit : Nat) (r : RawEntry) (pe : PEntry) (h : normEntry limit r = some pe)
